@@ -227,6 +227,27 @@ func (w *World) runBlock(r *Rng, out *Out, t *tracked, traffic int, during func(
 	if during != nil {
 		during()
 	}
+	// the permissionless write to the liquidity-protection state (what a swap does), on a discarded branch
+	{
+		sell := r.Bool()
+		var v *big.Int
+		cur := w.app.ClpKeeper.GetLiquidityProtectionRateParams(w.ctx).CurrentRowanLiquidityThreshold.BigInt()
+		if r.Bool() {
+			v = r.Near(cur)
+		} else {
+			v = r.AdvAmount(cur)
+		}
+		if v.BitLen() > 250 { // keep CalcRowanValue(v, 1) = v (its Dec product must fit 315 bits)
+			v = sub1(pow2(250))
+		}
+		line := fmt.Sprintf("lpu %s %s %s", w.lpState(), boolBit(sell), v)
+		cctx, _ := w.ctx.CacheContext()
+		ans := protect(func() string {
+			w.app.ClpKeeper.MustUpdateLiquidityProtectionThreshold(cctx, sell, sdk.NewUintFromBigInt(v), sdk.OneDec())
+			return "ok " + u2s(w.app.ClpKeeper.GetLiquidityProtectionRateParams(cctx).CurrentRowanLiquidityThreshold)
+		})
+		out.Emit(line, ans, "lpu."+ans[:2], true)
+	}
 	// clp EndBlocker
 	eline := w.ebLine()
 	res = w.Hook(func(ctx sdk.Context) { clp.EndBlocker(ctx, w.app.ClpKeeper) })
